@@ -184,6 +184,19 @@ def range_cases(draw):
     A = draw(st.integers(-5, 3))
     A, B = gen.clamp_interval([A, A + draw(st.integers(0, 5))], pair["W"], pipe)
     use_grid = draw(st.booleans())
+    if draw(st.integers(0, 5)) == 0:
+        # a strip (far from square) with wide invalid blocks and outliers, an interval that excludes 0 and a filling step:
+        # the pixels to fill have their nearest valid pixel farther away than the short side of the map
+        pair = draw(gen.image_pair(min_rows=5, max_rows=7, min_cols=26, max_cols=40, max_val=20, masks=True, tile_max=6))
+        x0 = draw(st.integers(2, 12))
+        pair["mask_left"] = (pair["mask_left"] or []) + [["rect", 0, x0, pair["H"] - 1, min(pair["W"] - 1, x0 + draw(st.integers(7, 12))), 2]]
+        pair["noise"] = {"seed": draw(st.integers(0, 10 ** 6)), "frac": draw(st.sampled_from([0.1, 0.25]))}
+        pipe = [["matching_cost", {"matching_cost_method": draw(st.sampled_from(["sad", "census"])), "window_size": 3}],
+                ["disparity", {"disparity_method": "wta", "invalid_disparity": draw(st.sampled_from([-9999, "NaN"]))}],
+                ["validation", {"validation_method": "cross_checking_accurate", "cross_checking_threshold": 0,
+                                "interpolated_disparity": draw(st.sampled_from(["sgm", "sgm", "mc-cnn"]))}]]
+        A, B = draw(st.sampled_from([[1, 4], [2, 3], [-4, -1], [-3, -2]]))
+        use_grid = False
     p = {"pair": pair, "AB": [A, B], "pipeline": pipe}
     if use_grid:
         p["grid"] = draw(grid_spec(pair["H"], pair["W"], A, B))
